@@ -36,6 +36,27 @@ pub fn all() -> Vec<Prop> {
 
 // ------------------------------------------------------------------ small builders
 
+/// Adds, for every scenario, the variant in which no client yields between its operations
+/// (operations of one program run back to back unless they really wait).
+fn with_fused(v: Vec<Scenario>) -> Vec<Scenario> {
+    let mut out = Vec::with_capacity(v.len() * 2);
+    for s in v {
+        let multi = s.clients.iter().any(|c| c.auto_yield && c.steps.iter().filter(|x| !matches!(x, Step::Fuse)).count() > 1);
+        if multi {
+            let mut f = s.clone();
+            f.name.push_str("+fused");
+            for c in f.clients.iter_mut() {
+                c.auto_yield = false;
+            }
+            out.push(s);
+            out.push(f);
+        } else {
+            out.push(s);
+        }
+    }
+    out
+}
+
 struct Ids(u32);
 impl Ids {
     fn next(&mut self) -> u32 {
@@ -123,7 +144,7 @@ fn delivery_scenarios(thorough: bool, tag: &str) -> Vec<Scenario> {
     let progs = seqs(&alpha, 3);
     let mut out = Vec::new();
     let mut n = 0;
-    for cap in [1usize, 2] {
+    for cap in [1usize, 2, 8] {
         for slow in [false, true] {
             // two clients
             for (i, p1) in progs.iter().enumerate() {
@@ -138,6 +159,11 @@ fn delivery_scenarios(thorough: bool, tag: &str) -> Vec<Scenario> {
                     // timeouts only matter with slow handlers
                     let has_to = p1.iter().chain(p2.iter()).any(|o| matches!(o, DOp::TellTO | DOp::AskTO));
                     if has_to != slow {
+                        continue;
+                    }
+                    // capacity 8 exceeds every program: acceptance of an ask is then known at its start ("roomy")
+                    let has_ask = p1.iter().chain(p2.iter()).any(|o| matches!(o, DOp::Ask | DOp::AskTO));
+                    if cap == 8 && !has_ask {
                         continue;
                     }
                     let mut ids = Ids(0);
@@ -156,7 +182,8 @@ fn delivery_scenarios(thorough: bool, tag: &str) -> Vec<Scenario> {
                     let mut a = ActorSpec::plain(cap);
                     a.on_start = gated(Outcome::Ok);
                     n += 1;
-                    out.push(scn(format!("{tag}-{n}-cap{cap}-{p1:?}|{p2:?}{}", if slow { "-slow" } else { "" }), vec![a], clients, &[]));
+                    let tags: &[&str] = if cap == 8 { &["roomy"] } else { &[] };
+                    out.push(scn(format!("{tag}-{n}-cap{cap}-{p1:?}|{p2:?}{}", if slow { "-slow" } else { "" }), vec![a], clients, tags));
                 }
             }
         }
@@ -213,7 +240,7 @@ fn uses_after_drop(p: &[DOp]) -> bool {
 }
 
 fn gen_c01(thorough: bool) -> Vec<Scenario> {
-    delivery_scenarios(thorough, "c01")
+    with_fused(delivery_scenarios(thorough, "c01"))
 }
 
 fn gen_c02(thorough: bool) -> Vec<Scenario> {
@@ -236,7 +263,7 @@ fn gen_c02(thorough: bool) -> Vec<Scenario> {
     let mut a = ActorSpec::plain(1);
     a.on_start = gated(Outcome::Ok);
     v.push(scn("c02-erased".into(), vec![a], vec![p1, p2], &[]));
-    v
+    with_fused(v)
 }
 
 // ------------------------------------------------------------------ C03: replies and completion
@@ -344,7 +371,7 @@ fn gen_c03(thorough: bool) -> Vec<Scenario> {
         n += 1;
         out.push(scn(format!("c03-{n}-two-actors"), vec![ActorSpec::plain(1), ActorSpec::plain(1)], vec![c0, c1, c2], &["allcomplete"]));
     }
-    out
+    with_fused(out)
 }
 
 // ------------------------------------------------------------------ C04 / C05: lifecycle
@@ -550,7 +577,7 @@ fn gen_c06(thorough: bool) -> Vec<Scenario> {
             out.push(s);
         }
     }
-    out
+    with_fused(out)
 }
 
 // ------------------------------------------------------------------ C07: termination and references
@@ -618,11 +645,17 @@ fn gen_c07(thorough: bool) -> Vec<Scenario> {
     let runs: Vec<Vec<HookSpec>> = vec![
         vec![],
         vec![HookSpec { entry_yield: false, steps: vec![Step::Yield], out: Outcome::OkTrue }, HookSpec { entry_yield: false, steps: vec![], out: Outcome::OkFalse }],
+        // an idle handler that never gives up: ticks twice, then waits forever
+        vec![
+            HookSpec { entry_yield: false, steps: vec![Step::Sleep(10)], out: Outcome::OkTrue },
+            HookSpec { entry_yield: false, steps: vec![Step::Yield], out: Outcome::OkTrue },
+            HookSpec { entry_yield: false, steps: vec![], out: Outcome::Pend },
+        ],
     ];
     let maxlen = if thorough { 4 } else { 3 };
     for hist in seqs(&alpha, maxlen) {
         for (ri, run) in runs.iter().enumerate() {
-            if !thorough && ri == 1 && hist.len() > 2 {
+            if !thorough && ri >= 1 && hist.len() > 2 {
                 continue;
             }
             for other in [0, 1, 2] {
@@ -649,6 +682,22 @@ fn gen_c07(thorough: bool) -> Vec<Scenario> {
                 n += 1;
                 out.push(scn(format!("c07-{n}-run{ri}-o{other}-{hist:?}"), vec![a], vec![c0, c1], &["probe"]));
             }
+        }
+    }
+    // stop() requested while the mailbox is full: the work accepted before it is still finished
+    for cap in [1usize, 2] {
+        for ri in 0..runs.len() {
+            let mut ids = Ids(0);
+            let mut a = ActorSpec::plain(cap);
+            a.on_run = runs[ri].clone();
+            let mut tells = vec![send(SendKind::Tell, 0, MsgSpec::m1(ids.next()).steps(vec![Step::Yield]))];
+            for _ in 0..cap {
+                tells.push(send(SendKind::Tell, 0, MsgSpec::m1(ids.next())));
+            }
+            let c0 = Program::new(vec![(0, 0)], tells);
+            let c1 = Program::new(vec![(0, 0)], vec![Step::Stop(0)]);
+            n += 1;
+            out.push(scn(format!("c07-{n}-stop-full-cap{cap}-run{ri}"), vec![a], vec![c0, c1], &["probe"]));
         }
     }
     // a strong handle stored in another actor's state / travelling in a message
@@ -790,7 +839,7 @@ fn gen_c09(thorough: bool) -> Vec<Scenario> {
         n += 1;
         out.push(scn(format!("c09-{n}-cap0"), vec![a], vec![c0], &[]));
     }
-    out
+    with_fused(out)
 }
 
 // ------------------------------------------------------------------ C10: timeouts
@@ -1126,5 +1175,5 @@ fn gen_c13(thorough: bool) -> Vec<Scenario> {
             }
         }
     }
-    out
+    with_fused(out)
 }
